@@ -131,8 +131,68 @@ theorem pushLastItem_ok (b : DBlock) (hb : NoEmpty b) :
 
 /-- frames the reader keeps on its block stack -/
 def isBlock : Frame → Bool
-  | .para | .heading | .quote | .code | .table | .list _ => true
+  | .para | .heading | .quote | .code | .table _ | .list _ => true
   | _ => false
+
+/-- the last row of a table body has an open cell -/
+def lastRowReady : List (List Inlines) → Prop
+  | [] => False
+  | [r] => r ≠ []
+  | _ :: r2 :: rest => lastRowReady (r2 :: rest)
+
+/-- a cell is open: in the header as long as there is no body row, else in the last row -/
+def cellReady (hd : List Inlines) : List (List Inlines) → Prop
+  | [] => hd ≠ []
+  | r :: rs => lastRowReady (r :: rs)
+
+theorem appendLast_ne {α} : ∀ (xs : List (List α)) (x : α) (ys : List (List α)), appendLast xs x = some ys → ys ≠ []
+  | [], _, _, h => by simp [appendLast] at h
+  | [l], x, ys, h => by simp [appendLast] at h; subst h; simp
+  | l :: l2 :: rest, x, ys, h => by
+    simp only [appendLast, Option.map_eq_some_iff] at h
+    obtain ⟨a, _, rfl⟩ := h
+    simp
+
+theorem appendLast_some {α} : ∀ (xs : List (List α)) (x : α), xs ≠ [] → ∃ ys, appendLast xs x = some ys
+  | [], _, h => absurd rfl h
+  | [l], x, _ => ⟨_, rfl⟩
+  | l :: l2 :: rest, x, _ => by
+    obtain ⟨ys, h⟩ := appendLast_some (l2 :: rest) x (by simp)
+    exact ⟨l :: ys, by simp [appendLast, h]⟩
+
+theorem appendLastRow_ready : ∀ (rows : List (List Inlines)) (i : Inline) (rs : List (List Inlines)),
+    appendLastRow rows i = some rs → lastRowReady rs
+  | [], _, _, h => by simp [appendLastRow] at h
+  | [r], i, rs, h => by
+    simp only [appendLastRow, Option.map_eq_some_iff] at h
+    obtain ⟨a, ha, rfl⟩ := h
+    exact appendLast_ne r i a ha
+  | r :: r2 :: rest, i, rs, h => by
+    simp only [appendLastRow, Option.map_eq_some_iff] at h
+    obtain ⟨a, ha, rfl⟩ := h
+    have := appendLastRow_ready (r2 :: rest) i a ha
+    cases a with
+    | nil => simp [lastRowReady] at this
+    | cons x xs => simpa [lastRowReady] using this
+
+theorem appendLastRow_some : ∀ (rows : List (List Inlines)) (i : Inline), lastRowReady rows →
+    ∃ rs, appendLastRow rows i = some rs
+  | [], _, h => by simp [lastRowReady] at h
+  | [r], i, h => by
+    obtain ⟨ys, hy⟩ := appendLast_some r i h
+    exact ⟨[ys], by simp [appendLastRow, hy]⟩
+  | r :: r2 :: rest, i, h => by
+    obtain ⟨rs, hr⟩ := appendLastRow_some (r2 :: rest) i (by simpa [lastRowReady] using h)
+    exact ⟨r :: rs, by simp [appendLastRow, hr]⟩
+
+theorem pushCell_ready : ∀ (rows : List (List Inlines)), rows ≠ [] → lastRowReady (pushCell rows)
+  | [], h => absurd rfl h
+  | [r], _ => by simp [pushCell, lastRowReady]
+  | r :: r2 :: rest, _ => by
+    have := pushCell_ready (r2 :: rest) (by simp)
+    cases hp : pushCell (r2 :: rest) with
+    | nil => simp [hp, lastRowReady] at this
+    | cons x xs => simpa [pushCell, hp, lastRowReady] using this
 
 /-- a block frame and the open block on the reader's stack that stands for it -/
 def Match : Frame → DBlock → Prop
@@ -140,7 +200,7 @@ def Match : Frame → DBlock → Prop
   | .heading, .header _ _ _ => True
   | .quote, .quote _ bs => NoEmptyL bs
   | .code, .code _ _ _ => True
-  | .table, .table _ _ _ _ => True
+  | .table c, .table _ hd _ rows => c = true → cellReady hd rows
   | .list b, .blist items => (b = true → items ≠ []) ∧ NoEmptyLL items
   | .list b, .olist items => (b = true → items ≠ []) ∧ NoEmptyLL items
   | _, _ => False
@@ -191,8 +251,23 @@ theorem appendInline_match {f : Frame} {b : DBlock} (i : Inline) (pos : LineRang
   | rule lr => cases f <;> simp [Match] at h
   | table lr hd al rows =>
     cases f <;> simp [Match] at h
-    obtain ⟨hd', rows', h1⟩ := appendInline_table lr hd al rows i pos
-    exact ⟨_, h1, by simp [Match]⟩
+    cases rows with
+    | nil =>
+      simp only [appendInline]
+      split
+      · rename_i h' hh
+        exact ⟨_, rfl, fun _ => appendLast_ne hd i h' hh⟩
+      · exact ⟨_, rfl, h⟩
+    | cons r rs =>
+      simp only [appendInline]
+      split
+      · rename_i rs' hh
+        refine ⟨_, rfl, fun _ => ?_⟩
+        have := appendLastRow_ready (r :: rs) i rs' hh
+        cases rs' with
+        | nil => simp [lastRowReady] at this
+        | cons x xs => simpa [cellReady] using this
+      · exact ⟨_, rfl, h⟩
   | quote lr bs =>
     cases f <;> simp [Match] at h
     obtain ⟨bs', h1, h2⟩ := appendToBlocks_ok i pos bs h
@@ -357,7 +432,9 @@ theorem emit_pres {fs : List Frame} {st : St} (i : Inline) (pos : LineRange) (hr
       cases f <;> simp [inlineAllowed] at ha
       · exact emit_lift (f := .para) (r := r) i pos hrel rfl rfl (by simp) (fun s => Iff.rfl)
       · exact emit_lift (f := .heading) (r := r) i pos hrel rfl rfl (by simp) (fun s => Iff.rfl)
-      · exact emit_lift (f := .table) (r := r) i pos hrel rfl rfl (by simp) (fun s => Iff.rfl)
+      · rename_i c
+        cases c <;> simp [inlineAllowed] at ha
+        exact emit_lift (f := .table true) (r := r) i pos hrel rfl rfl (by simp) (fun s => Iff.rfl)
       · obtain ⟨r', rfl, _⟩ := item_inv hrel.ok
         exact emit_lift (f := .list true) (r := r') i pos hrel rfl rfl (by simp)
           (fun s => by simp [BlockRel, isBlock])
@@ -413,7 +490,9 @@ theorem stack_of_inlineAllowed : ∀ {fs : List Frame} {stack : List DBlock}, Fs
       exact ⟨b, rest, h⟩
     · obtain ⟨b, rest, h, _⟩ := (BlockRel_block (f := .heading) rfl).1 hb
       exact ⟨b, rest, h⟩
-    · obtain ⟨b, rest, h, _⟩ := (BlockRel_block (f := .table) rfl).1 hb
+    · rename_i c
+      cases c <;> simp [inlineAllowed] at ha
+      obtain ⟨b, rest, h, _⟩ := (BlockRel_block (f := .table true) rfl).1 hb
       exact ⟨b, rest, h⟩
     · obtain ⟨r', rfl, _⟩ := item_inv hok
       have hb2 : BlockRel (.list true :: r') stack := by simpa [BlockRel, isBlock] using hb
@@ -547,7 +626,8 @@ theorem step_pres (content : Position.Bytes) {fs fs' : List Frame} {st : St} (ev
     have hs : Reader.step content ⟨inl, .table l h al rows :: rest, blocks, mb, md⟩ .startRow =
         .ok ⟨inl, .table l h al (rows ++ [[]]) :: rest, blocks, mb, md⟩ := by
       simp [Reader.step, top, appendRow, setTop]
-    exact ⟨_, hs, hok, (BlockRel_block rfl).2 ⟨_, _, rfl, by simp [Match], hr⟩, hinl, hmb⟩
+    exact ⟨_, hs, by simpa [FsOk] using hok, (BlockRel_block rfl).2 ⟨_, _, rfl, by simp [Match], hr⟩,
+      by simpa [inlDepth] using hinl, by simpa [isMeta] using hmb⟩
   | startCell =>
     inv_step hstep
     obtain ⟨hok, hb, hinl, hmb⟩ := hrel
@@ -560,12 +640,20 @@ theorem step_pres (content : Position.Bytes) {fs fs' : List Frame} {st : St} (ev
       have hs : Reader.step content ⟨inl, .table l h al [] :: rest, blocks, mb, md⟩ .startCell =
           .ok ⟨inl, .table l (h ++ [[]]) al [] :: rest, blocks, mb, md⟩ := by
         simp [Reader.step, top, appendCell, setTop]
-      exact ⟨_, hs, hok, (BlockRel_block rfl).2 ⟨_, _, rfl, by simp [Match], hr⟩, hinl, hmb⟩
+      exact ⟨_, hs, by simpa [FsOk] using hok,
+        (BlockRel_block rfl).2 ⟨_, _, rfl, by simp [Match, cellReady], hr⟩,
+        by simpa [inlDepth] using hinl, by simpa [isMeta] using hmb⟩
     | cons row rows =>
       have hs : Reader.step content ⟨inl, .table l h al (row :: rows) :: rest, blocks, mb, md⟩ .startCell =
           .ok ⟨inl, .table l h al (pushCell (row :: rows)) :: rest, blocks, mb, md⟩ := by
         simp [Reader.step, top, appendCell, setTop]
-      exact ⟨_, hs, hok, (BlockRel_block rfl).2 ⟨_, _, rfl, by simp [Match], hr⟩, hinl, hmb⟩
+      have hready := pushCell_ready (row :: rows) (by simp)
+      exact ⟨_, hs, by simpa [FsOk] using hok,
+        (BlockRel_block rfl).2 ⟨_, _, rfl, by
+          cases hp : pushCell (row :: rows) with
+          | nil => simp [hp, lastRowReady] at hready
+          | cons x xs => simpa [Match, cellReady, hp] using hready, hr⟩,
+        by simpa [inlDepth] using hinl, by simpa [isMeta] using hmb⟩
   | text s e t =>
     inv_step hstep; rename_i ha
     by_cases hm : st.metaBlock = true
